@@ -1145,6 +1145,11 @@ impl<'a> LL1Validator {
                     sema.follow_sets
                         .entry(part_regex.syntax())
                         .or_default()
+                        .insert(eof_token.clone());
+                    // the end of the part's input follows the rule from outside as well
+                    sema.left_rec_local_follow_sets
+                        .entry(part_regex.syntax())
+                        .or_default()
                         .insert(eof_token);
                 }
             }
